@@ -26,6 +26,8 @@ def register(reg):
         target=f'{G}._to_polar_scalar', props=['C20'], kind='method',
         params={'self': 'EllipseGeometry', 'x': 'real', 'y': 'real'},
         ensures=[('radius', f'result[0] == {rad}'), ('angle', f'result[1] == {ang}')],
+        replay={'call': 'photutils.isophote.geometry:EllipseGeometry._to_polar_scalar',
+                'self': 'EllipseGeometry', 'approx': True, 'args': ['x', 'y']},
         returns=('tuple', 'real', 'real'),
         mutants=[('angle = np.pi - angle', 'angle = np.pi + angle'),
                  ('if x1 >= 0.0 and y1 < 0.0', 'if x1 > 0.0 and y1 < 0.0'),
@@ -51,4 +53,6 @@ def register(reg):
         ensures=[('scalar-form-is-the-closed-form',
                   f'result[0] == {rad} and result[1] == {ang}')],
         note='dispatch on isinstance(x, (int, float)); checked against the callee contract',
+        replay={'call': 'photutils.isophote.geometry:EllipseGeometry.to_polar',
+                'self': 'EllipseGeometry', 'approx': True, 'args': ['x', 'y']},
     ))
